@@ -461,6 +461,8 @@ class Coordinator(object):
 
         self._state = "[joining]"
         yield self.on_join_prepare()
+        if self._stopping:
+            return
         join_response = yield self.send_join_group_request()
         if not join_response or self._stopping:
             # join failed, we'll be called again after a small delay
@@ -485,6 +487,8 @@ class Coordinator(object):
                     topic_partitions=topic_partitions,
                 )
 
+        if self._stopping:
+            return
         self._state = "[syncing]"
         sync_response = yield self.send_sync_group_request(assignments)
         if not sync_response or self._stopping:
